@@ -1698,8 +1698,7 @@ def x_sym_assert(ex, st, fr, ins, args):
         if mdl is not None:
             s2 = st.clone()
             s2.pc.append(z3.Not(c))
-            ex.stats['findings'] += 1
-            ex.findings.append(('assert', msg, ex.model_values(s2, mdl), ex.where(st)))
+            ex.report(s2, 'assert', msg, mdl)
             # continue on passing side
             st.pc.append(c)
             st.model = None
